@@ -129,7 +129,29 @@ def apply3(name, mode, a, args, clip=None):
     return getattr(bi, name)(a, *args, **kw)
 
 
+def stateful(e):
+    """a Routine / an already-made stream somewhere inside: consumed by use, never shared"""
+    if isinstance(e, list):
+        if e and e[0] in ('str', 'pstr'):
+            return True
+        return any(stateful(i) for i in e)
+    return False
+
+
 def build(e, fns):
+    """Identical stateless sub-expressions (patterns, functions, lists, operands and composites of them) are built
+    ONCE per case and the same object is used wherever they recur: operand ALIASING (p * p, p.clip(p, p),
+    Pseq([q * q]) with q = p + 1).  Each occurrence must still behave as an independent stream of the blueprint."""
+    memo = fns[-1].setdefault('__memo__', {}) if fns and isinstance(fns[-1], dict) else None
+    if memo is None or e[0] == 'leaf' and e[1][0] in ('num', 'fn') or stateful(e):
+        return build1(e, fns)
+    key = json.dumps(e)
+    if key not in memo:
+        memo[key] = build1(e, fns)
+    return memo[key]
+
+
+def build1(e, fns):
     t = e[0]
     if t == 'leaf':
         return leaf(e[1], fns)
